@@ -339,6 +339,9 @@ next:
 				for n += nn; nn != 0 && clean && err == nil; n += nn {
 					nn, err, clean = streamTo(i, w)
 				}
+				if err != nil {
+					clean = false // the remaining chunks of the streamed string are still on the wire
+				}
 			}
 			return n, err, clean
 		}
@@ -351,12 +354,13 @@ next:
 			lr.R = i
 			lr.N = n
 			n, err = io.Copy(w, lr)
+			full = lr.N + 2 // what is left of the payload: io.Copy may have read more than the writer accepted
 			lr.R = nil
 			lrs.Put(lr)
 		} else if typ == typeChunk {
 			return n, err, true
 		}
-		if _, err2 := i.Discard(int(full - n)); err2 == nil {
+		if _, err2 := i.Discard(int(full)); err2 == nil {
 			clean = true
 		} else if err == nil {
 			err = err2
